@@ -201,7 +201,9 @@ class Exec:
                     on_t = [(a, b)]
                 else:
                     on_f = [(a, b)]
-                if re.search(r"\bera == prev_era\b", txt) and self.scheme == "hazard_eras":
+                if self.scheme == "hazard_eras" and op == "==" and (
+                        (flow.has_src(fn, c[0], "load:era_clock") and flow.has_src(fn, c[1], "call:get_era")) or
+                        (flow.has_src(fn, c[1], "load:era_clock") and flow.has_src(fn, c[0], "call:get_era"))):
                     # frozen domain fact (checked by HE.era-nonzero): prev_era is 0 iff the guard holds no hazard era and eras are never 0,
                     # so era == prev_era implies that a hazard era is held
                     on_t = on_t + [(st.H, T)]
@@ -624,5 +626,6 @@ def rules(ctx, schemes=None, rid="K3.guard-typestate", rid_throw="K13.guard-exce
                 if cfg.get("throws") and ex.throw_points:
                     ctx.check(not throw_v, rid_throw, inst, "%d throw points consistent" % ex.throw_points,
                               "%s: %s" % (inst, throw_v[0][2] if throw_v else ""), throw_v[0][0] if throw_v else fn.where(), fn=fn)
-    if n < 30:
-        ctx.broken.append("typestate: only %d guard members analysed" % n)
+    floor = 10 * (len(schemes) if schemes else len(SCHEMES))
+    if n < floor:
+        ctx.broken.append("typestate: only %d guard members analysed (floor %d)" % (n, floor))
